@@ -65,7 +65,7 @@ type stream struct {
 }
 
 func (s *stream) next(r *rand.Rand, stale bool) agg.Rec {
-	rec := agg.Rec{Key: s.key, Reason: 2, Ftype: 2, Start: s.start}
+	rec := agg.Rec{Key: s.key, Reason: 2, Ftype: 2, Start: s.start, Cip: []int{0, 0, 0, 0}}
 	switch s.kind {
 	case "intra":
 		rec.Sp, rec.Dp, rec.Sns, rec.Dns, rec.Ftype = "pod-a", "pod-b", "ns-a", "ns-b", 1
@@ -73,6 +73,7 @@ func (s *stream) next(r *rand.Rand, stale bool) agg.Rec {
 		rec.Sp, rec.Sns = "pod-a", "ns-a"
 	case "dst":
 		rec.Dp, rec.Dns = "pod-b", "ns-b"
+		rec.Cip = []int{10, 96, 0, 1} // the destination node knows the Service's cluster IP
 	}
 	if stale {
 		rec.End = s.end - r.Intn(2)
@@ -242,6 +243,14 @@ func runHistory(r *rand.Rand, nProd int, pool bool, undisciplined bool) (op, int
 			}
 		}()
 	}
+	// what a query returned is the caller's: it is looked at again when everything is over
+	type keptRes struct {
+		k    string
+		m    map[string]interface{}
+		proj string
+	}
+	var kept []keptRes
+	var keptMu sync.Mutex
 	// queries
 	for q := 0; q < 2; q++ {
 		wg.Add(1)
@@ -278,6 +287,9 @@ func runHistory(r *rand.Rand, nProd int, pool bool, undisciplined bool) (op, int
 					if len(recs) == 1 {
 						o["flow"] = p.FlowProjOf(k, recs[0], false, false)
 						o["partial"] = true
+						keptMu.Lock()
+						kept = append(kept, keptRes{k, recs[0], fmt.Sprint(p.FlowProjOf(k, recs[0], false, false))})
+						keptMu.Unlock()
 					}
 					h.end(o, inv)
 				}
@@ -319,6 +331,10 @@ func runHistory(r *rand.Rand, nProd int, pool bool, undisciplined bool) (op, int
 	}
 	inv := h.begin()
 	h.end(op{"kind": "GetAll", "flows": flowList(p)}, inv)
+	for _, kr := range kept {
+		inv := h.begin()
+		h.end(op{"kind": "Recheck", "k": kr.k, "same": fmt.Sprint(p.FlowProjOf(kr.k, kr.m, false, false)) == kr.proj}, inv)
+	}
 	if pool {
 		p.A.Stop()
 	}
